@@ -213,12 +213,19 @@ def run_restest_counts(ctx, d):
     scen = [('empty file deleted', {'a.bin': bytes(range(100)), 'sub/empty': b'', 'z': b'xyz'}, ['sub/empty'], {}),
             ('non-empty file deleted', {'a.bin': bytes(range(100)), 'sub/n': b'12345', 'z': b'xyz'}, ['sub/n'], {}),
             ('empty deleted, one byte wrong elsewhere', {'a.bin': bytes(range(100)), 'e1': b'', 'e2': b'', 'z': b'xyz'}, ['e2'], {'z': b'xyZ'}),
-            ('nothing deleted, empty file grew', {'a.bin': bytes(range(50)), 'e': b''}, [], {'e': b'Q'})]
+            ('nothing deleted, empty file grew', {'a.bin': bytes(range(50)), 'e': b''}, [], {'e': b'Q'}),
+            # a reference file reached through a SYMBOLIC LINK (current.bin -> store/v3.bin): a reference file like any other; the tester
+            # copies the tree with the links resolved, the final tree differs in that file only
+            ('@symlink current.bin, final copy of it differs', {'store/v3.bin': bytes(range(60)), 'current.bin': bytes(range(60)), 'z': b'xyz'}, [],
+             {'current.bin': bytes(range(59)) + b'!'})]
     for k, (name, ref, deleted, changed) in enumerate(scen):
         t = os.path.join(d, 'rc%d' % k); os.makedirs(t)
         orig = os.path.join(t, 'orig'); fdir = os.path.join(t, 'fin'); os.makedirs(orig); os.makedirs(fdir)
         final = {p: changed.get(p, c) for p, c in ref.items() if p not in deleted}
         write_tree(orig, ref); write_tree(fdir, final)
+        if name.startswith('@symlink'):
+            os.remove(os.path.join(orig, 'current.bin'))
+            os.symlink(os.path.join('store', 'v3.bin'), os.path.join(orig, 'current.bin'))
         open(os.path.join(t, 'tamper.sh'), 'w').write(''.join('rm -f "$1/%s"\n' % p for p in deleted) or 'true\n')
         open(os.path.join(t, 'repair.sh'), 'w').write('cp -r "%s"/. "$2"/\n' % fdir)
         open(os.path.join(t, 'cfg'), 'w').write(RESTEST_CFG.format(t=t))
